@@ -901,6 +901,7 @@ pub fn corpus_sequences(max_len: usize) -> Vec<ManifestSet> {
         Stmt::Default(vec![lit("z"), expr("q$v")]),
         Stmt::Pool("pp".into(), Some(3)),
         Stmt::Binding("v".into(), expr("val$v")),
+        Stmt::Binding("v".into(), Vec::new()),
         Stmt::Include(lit("inc.ninja")),
         Stmt::Subninja(lit("sub.ninja")),
         Stmt::Comment(" note".into()),
@@ -929,10 +930,12 @@ pub fn corpus_sequences(max_len: usize) -> Vec<ManifestSet> {
     for len in 0..=max_len {
         let total = k.pow(len as u32);
         for code in 0..total {
-            let mut stmts = vec![Stmt::Rule(
-                "r".into(),
-                vec![("command".into(), expr("one $in $out $v"))],
-            )];
+            // v starts out non-empty so that re-binding it (also to the empty
+            // string) is observable in the statements that follow
+            let mut stmts = vec![
+                Stmt::Binding("v".into(), expr("base")),
+                Stmt::Rule("r".into(), vec![("command".into(), expr("one $in $out $v"))]),
+            ];
             let mut x = code;
             for _ in 0..len {
                 stmts.push(menu[x % k].clone());
@@ -953,7 +956,7 @@ pub fn corpus_sequences(max_len: usize) -> Vec<ManifestSet> {
 /// C11: binding slots around one build statement.  `assign[i]` selects the
 /// expression of slot i (0 = slot absent).
 pub const C11_EXPRS: &[&str] = &["L", "$x", "$y", "a$x", "${y}b", "", "$in", "$out"];
-pub const C11_SLOTS: usize = 11;
+pub const C11_SLOTS: usize = 12;
 
 #[derive(Debug, Clone, Copy, PartialEq, Eq)]
 pub enum Placement {
@@ -1009,8 +1012,15 @@ pub fn c11_manifest(assign: &[usize], placement: Placement) -> ManifestSet {
         p.extend(v);
         ins.push(p);
     }
+    // slot 11: an output path using a variable
+    let mut outs = vec![lit("out")];
+    if let Some(v) = e(11) {
+        let mut p = lit("o");
+        p.extend(v);
+        outs.push(p);
+    }
     let build = Stmt::Build(BuildStmt {
-        outs: vec![lit("out")],
+        outs,
         rule: "r".into(),
         ins,
         vars: bvars,
@@ -1067,7 +1077,7 @@ pub fn c11_manifest(assign: &[usize], placement: Placement) -> ManifestSet {
 }
 
 /// C14: output spellings of two locations (plus a directory-like spelling).
-pub const C14_SPELLINGS: &[&str] = &["x", "./x", "d/../x", "y", "./y", "x/"];
+pub const C14_SPELLINGS: &[&str] = &["x", "./x", "d/../x", "y", "./y", "x/", "z/x", "z//x"];
 
 /// All ways to fill `n` output positions from the spellings, each explicit
 /// (false) or implicit (true) -- implicit ones must come after explicit ones.
